@@ -6,8 +6,15 @@ import (
 	"verif/harness/world"
 )
 
-var c04Vary = []string{"", "X-A", "X-B", "X-A, X-B", "x-b ,X-A", "Accept-Encoding", "Accept-Language", "*", "X-A, *", "X-A,X-B"}
-var c04Pieces = []string{"", "1", "2", "X-A", "X-B", "1X-B2", " 1", "1 ", "a,b", "b, a", "GZIP", "gzip", "x-gzip", "en;q=0.5", "en", ","}
+var c04Vary = []string{"", "X-A", "X-B", "X-A, X-B", "x-b ,X-A", "Accept-Encoding", "Accept-Language", "*", "X-A, *", "X-A,X-B", "Authorization", "Authorization, X-A", "Cookie", "User-Agent"}
+var c04Pieces = []string{"", "1", "2", "X-A", "X-B", "1X-B2", " 1", "1 ", "a,b", "b, a", "GZIP", "gzip", "x-gzip", "en;q=0.5", "en", ",", "caf$XE9", "caf$XE8", "caf$XC3$XA9"}
+
+// values of fields with a structure of their own (credentials, cookies, product tokens)
+var c04Structured = map[string][]string{
+	"Authorization": {`Digest realm="api", username="alice", nonce="n1"`, `Digest realm="api", username="bob", nonce="n1"`, `Digest realm="api"`, "Bearer abc", "Bearer abd", "Basic QWxhZGRpbjpvcGVu", "Basic QWxhZGRpbjpvcGVuIHNlc2FtZQ==", "Token a b", "Token a c"},
+	"Cookie":        {"sid=1; theme=dark", "sid=2; theme=dark", "sid=1", "theme=dark; sid=1"},
+	"User-Agent":    {"curl/8.0", "curl/8.1", "Mozilla/5.0 (X11) A/1", "Mozilla/5.0 (X11) A/2"},
+}
 
 func c04Value(t *rapid.T, label string) string {
 	n := rapid.IntRange(1, 2).Draw(t, label+"-n")
@@ -20,6 +27,11 @@ func c04Value(t *rapid.T, label string) string {
 
 func c04Headers(t *rapid.T, label string) [][2]string {
 	var h [][2]string
+	for _, f := range []string{"Authorization", "Cookie", "User-Agent"} {
+		if Pct(t, label+"-has-"+f, 35) {
+			h = append(h, H(f, Pick(t, label+"-"+f+"-sv", c04Structured[f]...)))
+		}
+	}
 	for _, f := range []string{"X-A", "X-B", "Accept-Encoding", "Accept-Language"} {
 		switch Weighted(t, label+"-"+f, 45, 40, 7, 8) {
 		case 1:
@@ -43,7 +55,16 @@ func C04(t *rapid.T) *world.Scenario {
 	for i := range pool {
 		pool[i] = c04Headers(t, "pool"+itoa(int64(i)))
 	}
-	if Pct(t, "family", 40) {
+	grid := false
+	if Pct(t, "grid", 30) {
+		// a 2x2 grid over two nominated fields: every pair of requests agrees on one field and
+		// differs on the other, while the origin switches between Vary: X-A and Vary: X-B
+		grid = true
+		pool = [][][2]string{
+			{H("X-A", "1"), H("X-B", "x")}, {H("X-A", "1"), H("X-B", "y")},
+			{H("X-A", "2"), H("X-B", "x")}, {H("X-A", "2"), H("X-B", "y")},
+		}
+	} else if Pct(t, "family", 40) {
 		// re-splits of one string: the same characters distributed differently over the
 		// nominated fields (an identity derived from undelimited text cannot tell them apart)
 		p, q, r := Pick(t, "fp", "1", "a", ""), Pick(t, "fq", "2", "", "b"), Pick(t, "fr", "3", "2", "c")
@@ -58,19 +79,39 @@ func C04(t *rapid.T) *world.Scenario {
 	}
 	for i := 0; i < n; i++ {
 		lbl := "s" + itoa(int64(i))
-		if i > 0 && Pct(t, lbl+"-sleep", 10) {
-			sc.Steps = append(sc.Steps, SleepStep(Pick(t, lbl+"-dur", int64(1), 50, 101)))
+		if i > 0 && Pct(t, lbl+"-sleep", 25) {
+			sc.Steps = append(sc.Steps, SleepStep(Pick(t, lbl+"-dur", int64(1), 2, 50, 101)))
 			continue
 		}
 		rq := &world.Req{Method: "GET", URL: u}
 		rq.Header = pool[rapid.IntRange(0, len(pool)-1).Draw(t, lbl+"-hs")]
-		life := Pick(t, lbl+"-life", int64(100), 100, 100000)
+		life := Pick(t, lbl+"-life", int64(1), 1, 100, 100, 100000)
 		rp := world.Reply{Kind: "resp", Status: 200, Body: world.Body{Len: 24}, Header: [][2]string{H("Date", "$T+0"), H("Cache-Control", "max-age="+itoa(life)), H("Etag", `"v$S"`)}}
-		if v := Pick(t, lbl+"-vary", c04Vary...); v != "" {
+		varyPool := c04Vary
+		if grid {
+			varyPool = []string{"X-A", "X-B", "X-A", "X-B", "X-A, X-B", ""}
+		}
+		if v := Pick(t, lbl+"-vary", varyPool...); v != "" {
 			rp.Header = append(rp.Header, H("Vary", v))
 		}
+		if grid && Pct(t, lbl+"-nocache", 40) {
+			// must be validated on every reuse, so the origin can change Vary with a full reply
+			rp.Header[1] = H("Cache-Control", "max-age="+itoa(life)+", no-cache")
+		}
 		rq.Uncond = rp
-		switch Weighted(t, lbl+"-cond", 40, 30, 30) {
+		switch Weighted(t, lbl+"-cond", 30, 25, 25, 20) {
+		case 3:
+			// the validation is answered with a full reply whose Vary differs
+			c := rp
+			c.Header = [][2]string{H("Date", "$T+0"), H("Cache-Control", "max-age="+itoa(life)), H("Etag", `"v$S"`)}
+			fv := c04Vary
+			if grid {
+				fv = []string{"X-A", "X-B", "X-A, X-B"}
+			}
+			if v := Pick(t, lbl+"-fvary", fv...); v != "" {
+				c.Header = append(c.Header, H("Vary", v))
+			}
+			rq.Cond = &c
 		case 0:
 			rq.Cond = Simple304()
 		case 1:
@@ -91,6 +132,10 @@ func C19(t *rapid.T, n int) *world.Scenario {
 	sc := &world.Scenario{Prop: "C19", Backend: "mem"}
 	uris := []string{"http://a.test/c19/a", "http://a.test/c19/b", "http://b.test/c19"}[:rapid.IntRange(1, 3).Draw(t, "nuri")]
 	combos := [][][2]string{nil, {H("X-A", "1")}, {H("X-A", "2"), H("X-B", "1")}}[:rapid.IntRange(1, 3).Draw(t, "ncombo")]
+	if Pct(t, "rawbytes", 25) {
+		// a nominated header value with a byte that is not valid UTF-8 (obs-text is legal)
+		combos = append(combos, [][2]string{H("X-A", "caf$XE9")})
+	}
 	varyPool := []string{"", "X-A", "*", "X-A, X-B", "X-B", "X-A, *", "*, X-B"}
 	nv := rapid.IntRange(1, 3).Draw(t, "nvary")
 	varies := make([]string, nv)
